@@ -1,3 +1,96 @@
-"""placeholder"""
+"""logos 0.13 runtime (logos::Lexer and its LexerInternal methods).  Only the runtime is modelled: the generated DFA
+(`lex`, every `gotoN` function and the `LUT` constants) is executed from /repo's MIR.
+
+Lexer state = (source bytes, token_start, token_end, token).  The source is a StrS slice; a 1-byte char is one (possibly
+symbolic) byte, multi-byte chars are concrete, so byte offsets are concrete on every path.
+"""
+import re, z3
 from mirsym import *
 from . import model, ITER_NEXT
+from .core import some, none, ok, err, deref
+from .strings import StrS, gs, sref
+
+def src_bytes(s):
+    """[(VInt u8, char index, offset within char)] of a StrS slice"""
+    out = []
+    for i in range(s.lo, s.hi):
+        c, w = s.chars[i]
+        if w == 1: out.append((VInt(c.v, 'u8'), i, 0))
+        else:
+            if not is_conc(c.v): raise Unsupported('symbolic multi-byte char under logos')
+            for k, b in enumerate(chr(c.v).encode()): out.append((VInt(b, 'u8'), i, k))
+    return out
+
+def getlx(I, v):
+    v = deref(I, v)
+    if isinstance(v, VObj) and v.kind == 'logos': return v
+    raise Unsupported(f'not a logos lexer: {v!r}')
+
+@model(r"^<(\w+) as (?:logos::)?Logos<'.*>>::lexer$")
+def logos_lexer(I, m, a, dt):
+    s = gs(I, a[0])
+    return VObj('logos', s=s, bytes=src_bytes(s), start=0, end=0, token=none(), ty=m.group(1))
+
+def logos_next(I, lx):
+    lx.start = lx.end
+    I.call(f"<{lx.ty} as Logos<'s>>::lex", [VRef(Cell(lx), [])])
+    t = lx.token; lx.token = none()
+    lx.count = getattr(lx, 'count', 0) + 1
+    if lx.count > I.params.get('logos_bound', 64): raise PathEnd('bound', 'more than logos_bound tokens from one logos lexer')
+    return t
+ITER_NEXT['logos'] = logos_next
+
+LI = r"^<(?:logos::)?Lexer<'.*, (\w+)> as (?:logos::internal::)?LexerInternal<'.*>>::"
+@model(LI + r'(read|read_at)::<(u8|&\[u8; (\d+)\])>$')
+def logos_read(I, m, a, dt):
+    lx = getlx(I, a[0])
+    off = lx.end + (I.concretize(a[1].v, what='read_at offset') if m.group(2) == 'read_at' else 0)
+    if m.group(3) == 'u8':
+        if off < len(lx.bytes): return some(lx.bytes[off][0])
+        return none()
+    n = int(m.group(4))
+    if off + n <= len(lx.bytes): return some(VRef(Cell(VTuple([b for b, _, _ in lx.bytes[off:off + n]])), []))
+    return none()
+@model(LI + r'bump_unchecked$')
+def logos_bump(I, m, a, dt):
+    lx = getlx(I, a[0]); n = I.concretize(a[1].v, what='bump size')
+    if I.params.get('profile') != 'release' and lx.end + n > len(lx.bytes):
+        raise PathEnd('panic', 'logos: Bumping out of bounds!')
+    lx.end += n
+    return VUnit()
+@model(LI + r'set$')
+def logos_set(I, m, a, dt):
+    getlx(I, a[0]).token = some(a[1]); return VUnit()
+@model(LI + r'end$')
+def logos_end(I, m, a, dt):
+    getlx(I, a[0]).token = none(); return VUnit()
+@model(LI + r'trivia$')
+def logos_trivia(I, m, a, dt):
+    lx = getlx(I, a[0]); lx.start = lx.end; return VUnit()
+@model(LI + r'error$')
+def logos_error(I, m, a, dt):
+    lx = getlx(I, a[0])
+    # str::find_boundary: next index >= token_end that is a char boundary (or len)
+    e = lx.end
+    while e < len(lx.bytes) and lx.bytes[e][2] != 0: e += 1
+    lx.end = min(e, len(lx.bytes)) if e <= len(lx.bytes) else len(lx.bytes)
+    lx.token = some(err(VUnit()))
+    return VUnit()
+
+def slice_from(I, lx, lo, hi, what):
+    def cidx(off):
+        if off == len(lx.bytes): return lx.s.hi
+        if off > len(lx.bytes): raise PathEnd('panic', f'logos {what}: offset {off} beyond the source')
+        b, ci, k = lx.bytes[off]
+        if k != 0: raise PathEnd('panic', f'logos {what}: offset {off} is not a char boundary (slice_unchecked)')
+        return ci
+    return StrS(lx.s.chars, cidx(lo), cidx(hi))
+@model(r"^(?:logos::)?Lexer::<'.*, (\w+)>::remainder$")
+def logos_remainder(I, m, a, dt):
+    lx = getlx(I, a[0]); return sref(slice_from(I, lx, lx.end, len(lx.bytes), 'remainder'))
+@model(r"^(?:logos::)?Lexer::<'.*, (\w+)>::slice$")
+def logos_slice(I, m, a, dt):
+    lx = getlx(I, a[0]); return sref(slice_from(I, lx, lx.start, lx.end, 'slice'))
+@model(r"^(?:logos::)?Lexer::<'.*, (\w+)>::span$")
+def logos_span(I, m, a, dt):
+    lx = getlx(I, a[0]); return VStruct('Range', [VInt(lx.start, 'usize'), VInt(lx.end, 'usize')])
